@@ -152,14 +152,16 @@ Section Levels.
             else pret (rev (init :: acc))
     end.
 
-  Fixpoint check_segments (segs : list fseg) : P unit :=
+  (** a syntax error inside a segment is reported where the literal starts ([at]):
+      the segment's own positions are relative to the segment text *)
+  Fixpoint check_segments (at_ : loc) (segs : list fseg) : P unit :=
     match segs with
     | [] => pret tt
-    | FLit _ :: r => check_segments r
+    | FLit _ :: r => check_segments at_ r
     | FExpr s :: r =>
         match rec_src s with
-        | POk _ _ => check_segments r
-        | PErr l => fail_at l
+        | POk _ _ => check_segments at_ r
+        | PErr _ => fail_at at_
         | PFuel => fun _ => PFuel
         end
     end.
@@ -200,7 +202,7 @@ Section Levels.
      | Some (mkTok (TStringLit v) l) => pret (PrLit l (LStr v))
      | Some (mkTok (TByteStringLit v) l) => pret (PrLit l (LBytes v))
      | Some (mkTok (TFStringLit segs) l) =>
-         let! _ := check_segments segs in pret (PrLit l (LFStr segs))
+         let! _ := check_segments (r_start l) segs in pret (PrLit l (LFStr segs))
      | Some (mkTok (TBoolLit b) l) => pret (PrLit l (LBool b))
      | Some (mkTok TNull l) => pret (PrLit l LNull)
      | _ => fail_here
